@@ -93,6 +93,21 @@ theorem C06_reads_partial (D : CfgData) (V : List Nat) (IN OUT : St Def) (T : Tr
   rw [hcfg] at h
   exact nameDefs_mem hanno hload _ h
 
+/-- the same with the annotation relation stated at the node that EVALUATES the name (`nameDefsAtEval`, a Bool the driver
+evaluates for a failing read): its negation is the finding class `read_in_default_of_nested_def`. -/
+theorem C06_reads_eval_partial (D : CfgData) (V : List Nat) (IN OUT : St Def) (T : Trace) (a : NameAnno)
+    (hfix : isPostFix D.graph.edges V (rdFlow D) IN OUT = true)
+    (hpath : isPathB D.graph.edges V T = true)
+    (hgen : rdGenOK D T = true)
+    (j k : Nat) (hk : k < T.length)
+    (hanno : nameDefsAtEval IN a (T.nodeAt k) = true)
+    (hfor : forTargetKilledUnwritten D T j k a.var = false)
+    (hother : otherKillUnwritten D T j k a.var = false)
+    (hlast : isLastWriterB T j k a.var = true) :
+    (a.var, T.nodeAt j) ∈ a.defs :=
+  nameDefsAtEval_mem hanno _ (rd_trace_sound D V IN OUT T hfix hpath hgen j k a.var hk
+    (rdKillOK_of_classes D T j k a.var hfor hother) hlast).1
+
 /-- **C06_defined_in_partial** on the serialised real data. -/
 theorem C06_defined_in_partial (D : CfgData) (V : List Nat) (IN OUT : St Def) (T : Trace) (s : StmtData) (dv : List Nat)
     (hfix : isPostFix D.graph.edges V (rdFlow D) IN OUT = true)
@@ -269,5 +284,53 @@ theorem C06_defined_in_full_false :
   decide
 
 example : lastTouchIsForeign fwT 4 4 = true ∧ (fwIN 21).filter (fun d => d.1 == 4) = [] := by decide
+
+/-! ## The pinned tree, third deviation: names in the default values of a nested `def`
+
+    def f(a, b, c):
+        v = [a, b]
+        def g(p=v):          # `v` is evaluated by f when the def statement runs
+            return p
+        r = g()
+        return tr(0, r)
+
+`TreeAnnotator.visit_FunctionDef` switches to the nested function's analyzer before visiting `node.args`, so the Name `v` in the
+default value is annotated from `in_` of the NESTED graph's `arguments` node (node 12, empty) instead of `in_` of the enclosing
+`def` node (node 11), which does contain the definition.  (REAL data; variables 3 v, 4 g, 5 p; nodes 2 args, 6 `v = …`, 11 `def g`,
+17 `r = g()`, 21 return.) -/
+
+def ndD : CfgData where
+  fnId := 1
+  graph := { nodes := [2, 6, 11, 17, 21], edges := [(2, 6), (6, 11), (11, 17), (17, 21)] }
+  entry := 2
+  exits := [21]
+  info := [
+    { id := 2, scope := some { read := [], modified := [], deleted := [], bound := [0, 1, 2], globals := [], nonlocals := [], params := [0, 1, 2], annotations := [] }, isForIter := false, forTargets := [], isFnDef := false, fnsIn := some [] },
+    { id := 6, scope := some { read := [0, 1], modified := [3], deleted := [], bound := [3], globals := [], nonlocals := [], params := [], annotations := [] }, isForIter := false, forTargets := [], isFnDef := false, fnsIn := some [] },
+    { id := 11, scope := some { read := [3], modified := [4], deleted := [], bound := [4, 5], globals := [], nonlocals := [], params := [5], annotations := [] }, isForIter := false, forTargets := [], isFnDef := true, fnsIn := some [] },
+    { id := 17, scope := some { read := [4], modified := [6], deleted := [], bound := [6], globals := [], nonlocals := [], params := [], annotations := [] }, isForIter := false, forTargets := [], isFnDef := false, fnsIn := some [11] },
+    { id := 21, scope := some { read := [6, 7], modified := [], deleted := [], bound := [], globals := [], nonlocals := [], params := [], annotations := [] }, isForIter := false, forTargets := [], isFnDef := false, fnsIn := some [11] }]
+  fns := [
+    { id := 1, parent := 0, isLambda := false, read := [0, 1, 3, 4, 6, 7], bound := [0, 1, 2, 3, 4, 5, 6], nonlocals := [] },
+    { id := 11, parent := 1, isLambda := false, read := [5], bound := [5], nonlocals := [] }]
+def ndV : List Nat := [2, 6, 11, 17, 21]
+def ndIN : St Def := solAt [(2, []), (6, [(0, 2), (1, 2), (2, 2)]), (11, [(0, 2), (1, 2), (2, 2), (3, 6)]), (17, [(0, 2), (1, 2), (2, 2), (3, 6), (4, 11), (5, 11)]), (21, [(0, 2), (1, 2), (2, 2), (3, 6), (4, 11), (5, 11), (6, 17)])]
+def ndOUT : St Def := solAt [(2, [(0, 2), (1, 2), (2, 2)]), (6, [(0, 2), (1, 2), (2, 2), (3, 6)]), (11, [(0, 2), (1, 2), (2, 2), (3, 6), (4, 11), (5, 11)]), (17, [(0, 2), (1, 2), (2, 2), (3, 6), (4, 11), (5, 11), (6, 17)]), (21, [(0, 2), (1, 2), (2, 2), (3, 6), (4, 11), (5, 11), (6, 17)])]
+def ndT : Trace :=
+  [{ node := 2, reads := [], writes := [0, 1, 2], dels := [], fwrites := [], creads := [] },
+   { node := 6, reads := [0, 1], writes := [3], dels := [], fwrites := [], creads := [] },
+   { node := 11, reads := [3], writes := [4], dels := [], fwrites := [], creads := [] },
+   { node := 17, reads := [4], writes := [6], dels := [], fwrites := [], creads := [] },
+   { node := 21, reads := [6, 7], writes := [], dels := [], fwrites := [], creads := [] }]
+/-- the REAL annotation of the Name `v` (id 14) in the default value: taken from node 12, DEFINITIONS = () -/
+def ndName : NameAnno := { id := 14, var := 3, isLoad := true, cfg := 12, defs := [] }
+
+/-- Every hypothesis of `C06_reads_eval_partial` other than the annotation relation holds for the read of `v` at step 2 (the
+`def` statement) with writer step 1 — the definition IS in `in_` of the evaluating node — and the annotation misses it. -/
+theorem C06_default_read_counterexample :
+    isFix ndD.graph.edges ndV (rdFlow ndD) ndIN ndOUT = true ∧ isPathB ndD.graph.edges ndV ndT = true ∧ rdGenOK ndD ndT = true ∧
+    isLastWriterB ndT 1 2 ndName.var = true ∧ forTargetKilledUnwritten ndD ndT 1 2 ndName.var = false ∧
+    otherKillUnwritten ndD ndT 1 2 ndName.var = false ∧ (ndName.var, ndT.nodeAt 1) ∈ ndIN (ndT.nodeAt 2) ∧
+    nameDefsAtEval ndIN ndName (ndT.nodeAt 2) = false ∧ (ndName.var, ndT.nodeAt 1) ∉ ndName.defs := by decide
 
 end Malt.Analysis.C06
